@@ -11,7 +11,7 @@ From TI Require Import lib.Sched model.Caches.
 
 Section Memo.
   (* what the n-th body execution does for key k: returns a value or raises ([None]); arbitrary *)
-  Variable bv : nat -> nat -> option Z.
+  Variable bv : nat -> nat -> option mres.
 
   Definition busy (s : mstate) (t : nat) : Prop := m_pc (m_th s t) <> PIdle.
 
@@ -305,6 +305,43 @@ Section Memo.
     now rewrite upd_same.
   Qed.
 
+  (** a lookup that finds an entry — WHATEVER it holds, Python's [None] included — does
+      not run the body: the thread goes straight on to return the entry's content *)
+  Lemma memo_hit_runs_no_body_lemma s t k r s' :
+    m_pc (m_th s t) = PLookup k -> m_cache s k = Some r -> mstep bv s t = Some s' ->
+    m_total s' = m_total s /\ m_calls s' = m_calls s /\ m_cache s' = m_cache s
+    /\ m_pc (m_th s' t) = PRelease (Some (k, r)).
+  Proof.
+    intros PC C H. unfold mstep in H. rewrite PC, C in H. inversion H; subst s'; simpl.
+    now rewrite upd_same.
+  Qed.
+
+  (** once a call with key [k] has returned in the current epoch — whatever it returned,
+      [None] included — the entry is there (so by the lemma above no later call of the
+      epoch runs the body) *)
+  Lemma memo_returned_is_cached_lemma prog s t k r :
+    reachable (mstep bv) (minit prog) s ->
+    In (m_invals s, k, r) (m_rets (m_th s t)) -> m_cache s k = Some r.
+  Proof.
+    intros R H. destruct (i_rets_epoch s (minv_reachable prog s R) t _ _ _ H) as [_ E]. auto.
+  Qed.
+
+  (** sequential histories of calls and invalidations (one thread, run to completion) *)
+  Lemma mseq_reachable cmds : reachable (mstep bv) (minit (seq_prog cmds)) (mseq bv cmds).
+  Proof. apply run_sched_reachable. Qed.
+
+  Lemma memo_seq_body_once_lemma cmds k : m_calls (mseq bv cmds) k <= 1.
+  Proof. apply (memo_body_once_lemma (seq_prog cmds)). apply mseq_reachable. Qed.
+
+  Lemma memo_seq_none_result_cached_lemma cmds k :
+    In (m_invals (mseq bv cmds), k, None) (m_rets (m_th (mseq bv cmds) 0)) ->
+    m_cache (mseq bv cmds) k = Some None /\ m_calls (mseq bv cmds) k <= 1.
+  Proof.
+    intro H. split.
+    - apply (memo_returned_is_cached_lemma (seq_prog cmds) _ 0). apply mseq_reachable. exact H.
+    - apply memo_seq_body_once_lemma.
+  Qed.
+
   (** all calls with one argument tuple that return in one epoch return the same value *)
   Lemma memo_same_value_lemma prog s t1 t2 ep k v1 v2 :
     reachable (mstep bv) (minit prog) s ->
@@ -318,13 +355,13 @@ End Memo.
     thread returns its value *)
 Example memo_three_threads :
   let prog := fun t => if Nat.ltb t 3 then [MCall 7] else [] in
-  let bv := fun n _ => Some (Z.of_nat (100 + n)) in
+  let bv := fun n _ => Some (Some (Z.of_nat (100 + n))) in
   forall sch, In sch [ [0;1;2;0;1;2;0;1;2;0;1;2;0;1;2;0;1;2;1;1;1;1;1;2;2;2;2;2];
                        [2;2;1;0;2;0;1;2;2;1;1;1;1;1;0;0;0;0;0];
                        [0;0;0;1;0;0;1;1;1;1;2;2;2;2;2] ] ->
     let s := run_sched (mstep bv) (minit prog) sch in
     m_calls s 7 = 1 /\ m_total s = 1
-    /\ map (fun t => m_rets (m_th s t)) [0; 1; 2] = [[(0, 7, 100%Z)]; [(0, 7, 100%Z)]; [(0, 7, 100%Z)]].
+    /\ map (fun t => m_rets (m_th s t)) [0; 1; 2] = [[(0, 7, Some 100%Z)]; [(0, 7, Some 100%Z)]; [(0, 7, Some 100%Z)]].
 Proof.
   intros prog bv sch H. simpl in H.
   destruct H as [<-|[<-|[<-|[]]]]; vm_compute; auto.
@@ -335,13 +372,43 @@ Qed.
     body again — ONE completed execution, and both later callers get its value *)
 Example memo_aborted_body :
   let prog := fun t => if Nat.ltb t 3 then [MCall 7] else [] in
-  let bv := fun n _ => if Nat.eqb n 0 then None else Some (Z.of_nat (100 + n)) in
+  let bv := fun n _ => if Nat.eqb n 0 then None else Some (Some (Z.of_nat (100 + n))) in
   forall sch, In sch [ [0;1;2;0;1;2;0;1;2;0;1;2;0;1;2;0;1;2;1;1;1;1;1;2;2;2;2;2];
                        [0;0;0;0;1;1;1;1;1;2;2;2;2] ] ->
     let s := run_sched (mstep bv) (minit prog) sch in
     m_calls s 7 = 1 /\ m_total s = 2
-    /\ map (fun t => m_rets (m_th s t)) [0; 1; 2] = [[]; [(0, 7, 101%Z)]; [(0, 7, 101%Z)]].
+    /\ map (fun t => m_rets (m_th s t)) [0; 1; 2] = [[]; [(0, 7, Some 101%Z)]; [(0, 7, Some 101%Z)]].
 Proof.
   intros prog bv sch H. simpl in H.
   destruct H as [<-|[<-|[]]]; vm_compute; auto.
 Qed.
+
+(** ** results that are Python's [None]
+
+    non-vacuity: a sequential history over a body that returns [None] for key 0, [0] for
+    key 1, a number for key 2: three calls with key 0 run the body ONCE (the entry
+    holding [None] is a hit), the invalidation starts a new epoch (one more run) *)
+Definition none_bv : nat -> nat -> option mres :=
+  fun _ k => Some (match k with 0 => None | 1 => Some 0%Z | _ => Some (Z.of_nat k) end).
+Definition none_cmds : list mcmd :=
+  [MCall 0; MCall 0; MCall 1; MCall 0; MCall 1; MCall 2; MInval; MCall 0; MCall 0].
+
+Example memo_none_history :
+  let s := mseq none_bv none_cmds in
+  m_total s = 4 /\ m_calls s 0 = 1 /\ m_cache s 0 = Some None /\ m_pc (m_th s 0) = PIdle
+  /\ m_todo (m_th s 0) = []
+  /\ m_rets (m_th s 0) = [(0, 0, None); (0, 0, None); (0, 1, Some 0%Z); (0, 0, None); (0, 1, Some 0%Z);
+                          (0, 2, Some 2%Z); (1, 0, None); (1, 0, None)]
+  /\ map fst (mseq_trace none_bv none_cmds) = [1; 1; 2; 2; 2; 3; 3; 4; 4].
+Proof. repeat split; vm_compute; reflexivity. Qed.
+
+(** the variant of the wrapper that uses [None] as its "not cached yet" sentinel refutes
+    [memo_body_once] — sequentially: two calls with a key whose result is [None] run the
+    body twice in one epoch (the returned values stay right); a result [0] is still
+    memoised by it *)
+Lemma memo_body_once_refuted_by_none_sentinel :
+  exists bv cmds k,
+    m_calls (mseq_gen true bv cmds) k = 2 /\ m_invals (mseq_gen true bv cmds) = 0
+    /\ m_rets (m_th (mseq_gen true bv cmds) 0) = m_rets (m_th (mseq bv cmds) 0)
+    /\ m_calls (mseq bv cmds) k = 1.
+Proof. exists none_bv, [MCall 0; MCall 0; MCall 1; MCall 1], 0. repeat split; vm_compute; reflexivity. Qed.
